@@ -34,14 +34,14 @@ func checkC14(p *Prog, r *Report) {
 		r.Undecided("R0", "anchors", "", "api.FeatureLocalInterface or inbound anchors not found")
 		return
 	}
-	respTrig := callbackTriggers(p, "responseMsgCallback")
-	resTrig := callbackTriggers(p, "resultCallbacks")
+	respTrig := callbackTriggers(p, FN("FeatureLocal.responseMsgCallback"))
+	resTrig := callbackTriggers(p, FN("FeatureLocal.resultCallbacks"))
 	r.Rule("R1", "in the response-callback trigger the look-up of the counter, the start of its callbacks and the deletion of the entry share one critical section; registration scans for the same callback and appends inside the same lock; result callbacks are started under that lock")
 	if len(respTrig) == 0 || len(resTrig) == 0 {
 		r.Undecided("R1", "anchor:triggers", "", fmt.Sprintf("%d response and %d result callback triggers found", len(respTrig), len(resTrig)))
 		return
 	}
-	const key = "FeatureLocal.responseMsgCallback"
+	var key = F("FeatureLocal.responseMsgCallback")
 	for fn := range respTrig {
 		base := FnName(fn)
 		var lookup, del ssa.Instruction
@@ -80,7 +80,7 @@ func checkC14(p *Prog, r *Report) {
 		okStart := true
 		for _, g := range gos {
 			c := g.(*ssa.Go).Common()
-			if !valueDerivesFrom(c.Value, lk) && !strings.Contains(Path(c.Value), "responseMsgCallback") {
+			if !valueDerivesFrom(c.Value, lk) && !strings.Contains(Path(c.Value), FN("FeatureLocal.responseMsgCallback")) {
 				okStart = false
 			}
 			if len(c.Args) != 1 || !strings.HasPrefix(Path(c.Args[0]), "param:") {
@@ -95,7 +95,7 @@ func checkC14(p *Prog, r *Report) {
 			if g, ok := site.(*ssa.Go); ok {
 				h := false
 				for lp := range ls.At(g) {
-					if lastComp(lp) == "muxResponseCB" {
+					if g := guardOfField(ls, key); g != "" && lastComp(lp) == g {
 						h = true
 					}
 				}
